@@ -108,6 +108,11 @@ func c08Reader(cfg c08Cfg, b []byte, chunk int, env *mc.Env) io.Reader {
 		return bytes.NewReader(b)
 	case "bufio":
 		return bufio.NewReader(&schedReader{b: b, chunk: chunk, env: env})
+	case "bufio16", "bufio64", "bufio192", "bufio193", "bufio200":
+		// a bufio.Reader whose buffer is smaller than / just as large as / larger than the 193 bytes auto-detection peeks
+		var n int
+		fmt.Sscanf(cfg.Kind, "bufio%d", &n)
+		return bufio.NewReaderSize(&schedReader{b: b, chunk: chunk, env: env}, n)
 	case "seek":
 		return &schedSeeker{schedReader{b: b, chunk: chunk, env: env}}
 	case "bytesoff", "section":
@@ -214,8 +219,11 @@ func checkC08(c *mc.Ctx) {
 	two := append(append([]byte{}, one...), EncodePkts(Packetize(PESUnit(0x100, 0xe0, pesPayload(81, 100, c.Seed), 1, false), nil, new(uint8), false))...)
 	streams = append(streams, &Stream{Name: "single-packet", Bytes: one}, &Stream{Name: "two-packets", Bytes: two})
 	var cfgs []c08Cfg
-	for _, kind := range []string{"bytes", "bufio", "plain", "seek", "seekoff", "bytesoff", "section"} {
+	for _, kind := range []string{"bytes", "bufio", "plain", "seek", "seekoff", "bytesoff", "section", "bufio16", "bufio64", "bufio192", "bufio193", "bufio200"} {
 		for _, k := range []int{0, 1, 2, 3, 4, 16} {
+			if len(kind) > 5 && kind[:5] == "bufio" && k != 0 && k != 4 {
+				continue
+			}
 			cfgs = append(cfgs, c08Cfg{kind, false, k})
 			if k <= 4 {
 				cfgs = append(cfgs, c08Cfg{kind, true, k})
@@ -243,7 +251,15 @@ func checkC08(c *mc.Ctx) {
 			ePk, eDa := expect(cfg)
 			det := map[string]any{"kind": "stream", "stream": st.Name, "cfg": cfg.String(), "schedule": sched, "bytes": mc.Hex(b)}
 			site := fmt.Sprintf("%s/auto=%v", cfg.Kind, cfg.Auto)
+			// auto-detection peeks 193 bytes: a bufio.Reader with a smaller buffer cannot provide them and the library says
+			// so (an error, nothing delivered). A loud refusal loses nothing silently; anything delivered without an error
+			// has to be the whole stream
+			smallBufio := cfg.Auto && (cfg.Kind == "bufio16" || cfg.Kind == "bufio64" || cfg.Kind == "bufio192")
+			if smallBufio {
+				c.Ev.Class("small-bufio-auto", 1)
+			}
 			switch {
+			case prob != "" && smallBufio:
 			case prob != "":
 				det["message"] = prob
 				c.Rep.Report("read-schedule-breaks-demuxer:"+site, det)
@@ -351,5 +367,5 @@ func checkC08(c *mc.Ctx) {
 		}
 		c.Ev.Sample(map[string]any{"stream": st.Name, "packets": len(st.Pkts), "configurations": len(cfgs)})
 	}
-	c.Ev.Require("one-byte-reads", "auto-detect", "larger-packets", "short-read-deviation", "short-stream-auto")
+	c.Ev.Require("one-byte-reads", "auto-detect", "larger-packets", "short-read-deviation", "short-stream-auto", "small-bufio-auto")
 }
